@@ -106,12 +106,13 @@ class HttpRelayClient(RelayPoolClient):
 
     def _handle_request(self, result, envelope):
         method = self.relay.http_verb
-        self._finish_last_response()
-        if not self.conn:
-            self._new_conn()
-            assert self.conn is not None
         try:
-            self._send_request(method, result, envelope)
+            with gevent.Timeout(self.relay.timeout):
+                self._finish_last_response()
+                if not self.conn:
+                    self._new_conn()
+                    assert self.conn is not None
+                self._send_request(method, result, envelope)
         except gevent.Timeout:
             reply = Reply('450', '4.4.2 Connection timed out')
             self._fail_request(result, reply)
